@@ -194,3 +194,58 @@ Proof.
     + cbn. constructor; [exact I | constructor].
     + cbn. exact I.
 Qed.
+
+(* ------------------------------------------------------------------ executable ownership discipline *)
+Definition own_eqb (a b : nat * key) : bool := Nat.eqb (fst a) (fst b) && key_eqb (snd a) (snd b).
+Definition owns (own : owners) (e : nat * key) : bool := existsb (own_eqb e) own.
+
+Lemma owns_in : forall own e, owns own e = true -> In e own.
+Proof.
+  intros own [i k] H. unfold owns in H. apply existsb_exists in H. destruct H as [[j k'] [Hin E]].
+  unfold own_eqb in E. cbn in E. apply andb_true_iff in E. destruct E as [E1 E2].
+  apply Nat.eqb_eq in E1. apply key_eqb_eq in E2. subst. assumption.
+Qed.
+
+Fixpoint conc_okb (c : config) (st : JitModel.state) (own : owners) (ops : list (nat * op)) : bool :=
+  match ops with
+  | [] => true
+  | (i, OAlloc size) :: r =>
+      (0 <=? size) && (size + c_gran c <=? two64) &&
+      conc_okb c (fst (alloc c st size))
+        (match snd (alloc c st size) with
+         | RAlloc Ok id off len => (i, (id, off / pool_gran c (size_to_pool c len))) :: own
+         | _ => own end) r
+  | (i, ORelease id off) :: r =>
+      match find_block id (blocks st) with
+      | Some b => owns own (i, (id, off / pool_gran c (b_pool b))) &&
+                  conc_okb c (fst (release c st id off)) (drop_key (id, off / pool_gran c (b_pool b)) own) r
+      | None => false end
+  | (i, OShrink id off ns) :: r =>
+      match find_block id (blocks st) with
+      | Some b => owns own (i, (id, off / pool_gran c (b_pool b))) && (1 <=? ns) && conc_okb c (fst (shrink c st id off ns)) own r
+      | None => false end
+  | (i, OQuery id off) :: r => conc_okb c st own r
+  | (_, OReset _) :: _ => false
+  end.
+
+(* the boolean discipline check decides (one direction) the hypothesis conc_ok of concurrent_refines_c09 *)
+Lemma conc_okb_sound : forall c ops st own, conc_okb c st own ops = true -> conc_ok c st own ops.
+Proof.
+  induction ops as [|[i o] r IH]; intros st own H; cbn [conc_okb conc_ok] in *; [exact I|].
+  destruct o.
+  - apply andb_true_iff in H. destruct H as [H H3]. apply andb_true_iff in H. destruct H as [H1 H2].
+    apply Z.leb_le in H1. apply Z.leb_le in H2. auto.
+  - destruct (find_block id (blocks st)); [|discriminate]. apply andb_true_iff in H. destruct H as [H1 H2].
+    split; [apply owns_in; assumption | apply IH; assumption].
+  - destruct (find_block id (blocks st)); [|discriminate]. apply andb_true_iff in H. destruct H as [H H3].
+    apply andb_true_iff in H. destruct H as [H1 H2]. apply Z.leb_le in H2.
+    split; [apply owns_in; assumption|]. split; [assumption | apply IH; assumption].
+  - apply IH; assumption.
+  - discriminate.
+Qed.
+
+(* a non-trivial disciplined history, decided by computation: two threads interleave alloc / shrink / query / release *)
+Example conc_ok_example :
+  conc_ok JitWitness.cfg_f (init_state JitWitness.cfg_f) []
+    [(0%nat, OAlloc 100); (1%nat, OAlloc 5000); (0%nat, OShrink 0 64 64); (1%nat, OQuery 0 64); (1%nat, ORelease 0 192); (0%nat, ORelease 0 64)].
+Proof. apply conc_okb_sound. vm_compute. reflexivity. Qed.
